@@ -135,14 +135,30 @@ Alphabet ==
           Upd(T, <<<<V, sb>>, <<K, IntV(5)>>>>, True),     \* refused when it would make two keys equal, after touching strings
           E("Flush", [x |-> 0]), E("IntoInner", [x |-> 0]), E("Reopen", [x |-> 0])}
          \cup Rejects(T, TabT)
+    [] Cfg = "catalog" ->       \* C06: several tables in one catalog whose names are related: "P"."Q.R" against "P.Q"."R"
+                                \* (the same dotted path), a table named like another table's column, a prefix pair
+         {Cre(<<80>>, <<ColK, MkCol(<<81, 46, 82>>, "s", 8, TRUE, FALSE, TRUE, <<>>, <<>>, C_Identifier, <<>>)>>),
+          Cre(<<80, 46, 81>>, <<ColK, MkCol(<<82>>, "i16", 0, FALSE, FALSE, FALSE, <<0, 9>>, <<>>, <<>>, <<>>)>>),
+          Cre(<<82>>, <<MkCol(<<80>>, "s", 0, FALSE, TRUE, FALSE, <<>>, <<>>, <<>>, <<<<97>>, <<98>>>>), ColW>>),
+          Drp(<<80>>), Ins(<<80, 46, 81>>, <<<<IntV(1), IntV(9)>>>>),
+          E("Flush", [x |-> 0]), E("IntoInner", [x |-> 0]), E("Reopen", [x |-> 0])}
+    [] Cfg = "keysq" ->         \* quick subset of "keys": key not first, re-keying updates incl. a column assigned twice
+         {Cre(U, TabU)}
+         \cup {Ins(U, <<<<v, IntV(k)>>>>) : k \in {1, 2}, v \in {Null, sa}}
+         \cup {Upd(U, <<<<K, IntV(1)>>>>, True), Upd(U, <<<<K, IntV(3)>>>>, Eq(K, IntV(1))),
+               Upd(U, <<<<K, IntV(9)>>, <<K, IntV(2)>>>>, Eq(K, IntV(1))), Upd(U, <<<<K, IntV(2)>>, <<K, IntV(9)>>>>, Eq(K, IntV(1)))}
+         \cup {Del(U, Eq(K, IntV(1))), E("IntoInner", [x |-> 0]), E("Reopen", [x |-> 0])}
     [] Cfg = "keys" ->          \* key shapes: key not first, composite with nullable string part
          {Cre(U, TabU), Cre(T, TabC), Drp(U), Drp(T)}
          \cup {Ins(U, <<<<v, IntV(k)>>>>) : k \in {1, 2}, v \in {Null, sa}}
+         \cup {Ins(T, <<<<IntV(1), sE, Null>>, <<IntV(1), Null, IntV(1)>>>>)}        \* "" is the null key: duplicate within the batch
          \cup {Ins(U, <<<<sa, IntV(2)>>, <<sb, IntV(1)>>>>)}
          \cup {Ins(T, <<<<IntV(k), v, Null>>>>) : k \in {1, 2}, v \in {Null, sa, sE}}
          \cup {Ins(T, <<<<IntV(1), sb, IntV(5)>>, <<IntV(1), sa, IntV(10)>>>>)}
          \cup {Upd(T, <<<<V, v>>>>, True) : v \in {Null, sb}}
          \cup {Upd(U, <<<<K, IntV(1)>>>>, True), Upd(U, <<<<K, IntV(3)>>>>, Eq(K, IntV(1)))}
+         \* a column assigned twice: the last assignment is stored and it is the one the key check must use
+         \cup {Upd(U, <<<<K, IntV(9)>>, <<K, IntV(2)>>>>, Eq(K, IntV(1))), Upd(U, <<<<K, IntV(2)>>, <<K, IntV(9)>>>>, Eq(K, IntV(1)))}
          \cup {Del(U, Eq(K, IntV(1))), Del(T, Eq(V, Null)), Del(T, True)}
          \cup {E("Flush", [x |-> 0]), E("IntoInner", [x |-> 0]), E("Reopen", [x |-> 0])}
     [] Cfg = "two" ->           \* two tables sharing strings with each other and with the catalog
@@ -189,7 +205,7 @@ MCInit ==
 MCNext == \E e \in Alphabet : Do(e)
 MCSpec == MCInit /\ [][MCNext]_vars
 
-PoolBound == Len(pool) <= 40 /\ Cardinality(DOMAIN ustreams \ {SIG}) <= 2
+PoolBound == Len(pool) <= (IF Cfg = "catalog" THEN 90 ELSE 40) /\ Cardinality(DOMAIN ustreams \ {SIG}) <= 2
 
 -----------------------------------------------------------------------------
 \* JSON shape of the abstract state (tables and streams as lists; the harness sorts by name)
